@@ -141,6 +141,13 @@ CHECKS = {
 		note='Numeric tolerance 1e-5 per branch (8 printed digits). Duplicate labels only structurally. One genuine defect found and repaired (integer IDs).',
 		design='DESIGN.md §4 C17',
 	),
+	'C18': dict(
+		category='exploration',
+		technique='model-based generation of command/library-call histories (Hypothesis lists of steps interpreted against a fresh database copy); invariant after every step: sha256 of both files, nothing flushed, commit raises',
+		text='Histories of 5..25 steps mixing every read-side command (query in all channels/formats, dist --use-db, signatures info/create --db-params, tree), failing commands, library queries with handles left open, ORM edits on each default session (attribute change, add, delete) followed by flush / autoflushing query / commit / rollback, and double opens of the signature file are run against a fresh copy of a generated database; after every step the sha256 and size of the .gdb and .gs must equal their initial values, the edited session\'s own connection must still show the original rows and commit() must have raised.',
+		note='Only the bytes of the two database files are compared. In-process CLI via CliRunner.',
+		design='DESIGN.md §4 C18',
+	),
 }
 
 NOT_APPLICABLE = {}
